@@ -201,7 +201,9 @@ ClientDone(r, v) ==
                /\ v.st = q.pst /\ v.n <= q.pk /\ v.mixed = FALSE
                /\ v.junk < TokenLen      \* at most a torn token; never text of olla's own making
                /\ v.hmAll = 2 /\ v.hmOwn = 2
-         [] RespKind(r) = "partial" /\ Translated(q.route) -> TRUE
+         \* a translated answer whose backend died on the way is not dressed up as a finished message (C05: never a
+         \* fabricated completion): no message_stop / stop_reason of olla's own making
+         [] RespKind(r) = "partial" /\ Translated(q.route) -> ("fin" \in DOMAIN v => ~v.fin)
          \* the client walked away: whatever it had read by then came from that one attempt
          [] RespKind(r) = "aborted" -> (v.from => (v.e = q.cur /\ v.a = q.att /\ v.n <= q.pn)) /\ v.mixed = FALSE
          [] RespKind(r) = "crash" -> ~v.from /\ (v.st = 0 \/ v.st >= 500) /\ v.n = 0
